@@ -30,7 +30,7 @@ Slack == BRPow2(-150)
 Finite(bs) == \A i \in 1..Len(bs) : IsFinite(bs[i])
 Rest(s) == [i \in 1..(Len(s) - 1) |-> s[i + 1]]
 TolOf(mag, steps) == BRMul(BRMul(BRAdd(BRMul(BR(KAPPA), U), Slack), BR(steps)), mag)
-Near(x, y, mag, steps) == BRLe(BRAbs(BRSub(x, y)), TolOf(mag, steps))
+Near(x, y, mag, steps) == LeTracked(BRAbs(BRSub(x, y)), TolOf(mag, steps))
 
 \* ------------------------------------------------------------------ per-kind semantics
 \* lx = ln x (only used by the log kind; BRZero otherwise)
@@ -44,8 +44,10 @@ AntiMag(log, p, x, lx) ==
 \* the quartic form's own term magnitudes (they are larger than AntiMag and cancel)
 QMag(p, x, lx) ==
     LET Mf == LF!QuarticIndefMag(p)  xx == BRNeg(lx) IN
+    \* (1 + 2|x|/KAPPA): the unavoidable |x| 2^-53 relative error of e^x, x = -ln t rounded to one ulp
     BRMul(x, BRAdd(B!AbsEval(<< BRZero, Mf[1], Mf[2], Mf[3], Mf[4] >>, xx),
-                   BRMul(Mf[5], BRAbs(BRMul(B!Pow(xx, 5), ExpTail(xx))))))
+                   BRMul(BRMul(Mf[5], BRAbs(BRMul(B!Pow(xx, 5), ExpTail(xx)))),
+                         BRAdd(BROne, BRDiv(BRMul(BR(2), BRAbs(xx)), BR(KAPPA))))))
 PieceMag(log, p, x, lx) == IF log /\ Len(p) = 5 THEN BRAdd(QMag(p, x, lx), LF!QuarticIndefMag(p)[1]) ELSE AntiMag(log, p, x, lx)
 
 \* exact value at x of a returned integrated piece r (flattened form, numbers already decoded)
@@ -154,6 +156,18 @@ InScope(e) ==
     /\ \A j \in 1..Len(e.ind) : Finite(e.ind[j])
     /\ e.kind = "log" => (~SignBit(e.kx) /\ ~IsZero(e.kx) /\ \A j \in 1..Len(e.ends) : ~SignBit(e.ends[j]) /\ ~IsZero(e.ends[j]))
     /\ P!WellFormed(e.ends)
+    \* no term of any piece's antiderivative underflows or overflows at the knot or at a breakpoint
+    \* (e.g. a subnormal knot abscissa): the properties exclude those
+    /\ LET log == e.kind = "log"
+           E == Vals(e.ends)
+           Pc == [j \in 1..Len(e.pieces) |-> Vals(e.pieces[j])]
+           kx == Val(e.kx)
+       IN  /\ InRange(kx) /\ InRange(Val(e.ky))
+           /\ \A j \in 1..Len(E) : InRange(E[j])
+           /\ InRange(PieceMag(log, Pc[1], kx, LnIf(log, kx)))
+           /\ \A j \in 1..Len(E) :
+                 /\ InRange(PieceMag(log, Pc[j], E[j], LnIf(log, E[j])))
+                 /\ j > 1 => InRange(PieceMag(log, Pc[j], E[j - 1], LnIf(log, E[j - 1])))
 
 TracePwInt ==
     /\ IsEvent("pwint")
